@@ -94,6 +94,15 @@ type Contracts struct {
 	Assumed    []string // human readable list of assumed (trusted) contracts
 	Chains     map[string]string // pkg.Type -> name of the acyclic parent-link field
 	Uniques    []UniqueDecl      // fields holding an object owned by exactly one struct (checked by a writer scan)
+	Unreach    []UnreachDecl     // call-graph frame obligations
+}
+
+// UnreachDecl: none of the To functions is reachable from any From function in the call graph
+// (static calls, interface calls by class hierarchy, function values by signature).
+type UnreachDecl struct {
+	Name     string
+	From, To []string
+	Props    []string
 }
 
 type UniqueDecl struct {
@@ -113,7 +122,7 @@ type Lemma struct {
 var keywords = map[string]bool{
 	"func": true, "spec": true, "requires": true, "ensures": true, "assigns": true, "loop": true,
 	"props": true, "pure": true, "trusted": true, "invariant": true, "global": true, "lemma": true,
-	"at": true, "mode": true, "use": true, "chain": true, "unique": true, "sweep": true, "hyp": true, "concl": true, "package": true, "rec": true,
+	"at": true, "mode": true, "use": true, "chain": true, "unique": true, "unreachable": true, "sweep": true, "hyp": true, "concl": true, "package": true, "rec": true,
 }
 
 var funcHdr = regexp.MustCompile(`^func\s*(?:\(\s*(?:\w+\s+)?\*?\s*(\w+)\s*\))?\s*([\w$]+)\s*(.*)$`)
@@ -284,6 +293,31 @@ func (cs *Contracts) parseFile(path string) error {
 			}
 			cs.Chains[pkg+"."+tf[0]] = tf[1]
 			cs.Assumed = append(cs.Assumed, "acyclic parent chain "+pkg+"."+rest+" (the link is only written on freshly constructed objects)")
+			cur, curInv, curLemma = nil, nil, nil
+		case "unreachable":
+			// unreachable <name> props C02 from a b c : x y
+			fs := strings.Fields(rest)
+			ud := UnreachDecl{Name: pkg + "." + fs[0]}
+			mode := ""
+			for _, f := range fs[1:] {
+				switch f {
+				case "props", "from", ":":
+					mode = f
+					continue
+				}
+				switch mode {
+				case "props":
+					ud.Props = append(ud.Props, f)
+				case "from":
+					ud.From = append(ud.From, f)
+				case ":":
+					ud.To = append(ud.To, f)
+				}
+			}
+			if len(ud.From) == 0 || len(ud.To) == 0 {
+				return fail("unreachable needs 'from <roots> : <targets>'")
+			}
+			cs.Unreach = append(cs.Unreach, ud)
 			cur, curInv, curLemma = nil, nil, nil
 		case "unique":
 			// unique Queue.allocatingAcceptedApps [props C11]: distinct objects never share the map/slice/pointer in this field
